@@ -250,7 +250,7 @@ def driveC15 (args : List String) : String :=
 
 def behOf (stream : Bool) (layer : Nat) (c : Char) : Option InterceptClient.Interceptor :=
   if c == 'p' then some (InterceptClient.logPass stream layer)
-  else if c == 's' then some (InterceptClient.logShort stream layer)
+  else if c == 's' || c == 'c' then some (InterceptClient.logShort stream layer)
   else if c == 'a' then some (InterceptClient.logAlter stream layer)
   else if c == 'd' then some (InterceptClient.logDrop stream layer)
   else if c == 'm' then some (InterceptClient.logRename stream layer)
